@@ -34,6 +34,8 @@ CLAIMS = {
  'C08': ("Unbounded theorem over every byte stream and every history of calls: each successful RandomSecret result is the unpadded upper-case RFC 4648 text of exactly 20/32/64 consecutive "
          "stream bytes starting where the previous call stopped (each byte used once), contains only A-Z2-7, and DecodeSecret maps it back to those bytes; an unsupported hash yields an error and reads nothing.",
          "The random source is an explicit stream; that crypto/rand.Reader's default is the operating system's CSPRNG is the Go runtime's and is not modelled (partial there). The harness substitutes rand.Reader by a recording stream and compares sequential histories with the model, interleaved ones by multiset of recorded reads.", "6 C08"),
+ 'C10': ("Unbounded theorems: in the model every Go operation that can panic (index, slice bound, division, negative make) has the explicit outcome Panic, and no exported operation has that outcome for any argument value: DecodeSecret, Generate/Validate HOTP/TOTP (all digits/hash/period/skew/counter/instant values, absent parameters), Generate/Validate OCRA and the derivation (all configurations and inputs), RandomSecret, the input helpers, NewRawSuite / the parser / NewSuite (all strings), the URL builders and ParseOTPAuthURL (all URLs and nil).",
+         "Hangs are excluded by totality of the model plus the derivation bound of C04; the harness runs a hostile stream (every uint8 enum value, boundary integers, invalid UTF-8, 64 KiB strings, nil/empty/oversized byte fields, arbitrary suite configurations and URLs) under recover() and a per-case watchdog and compares outcome and value with the model. Stack or heap exhaustion is the Go runtime's and is not modelled. The inventory of potentially panicking SSA instructions planned in DESIGN.md is not built.", "6 C10"),
  'C13': ("Unbounded theorems: every validation model (HOTP, TOTP, OCRA) returns (true,nil) or (false,error) for all inputs; the error of a validation step does not depend on the HMAC function (hence not on the expected code); "
          "errors produced after the HMAC are the two sentinels, whose texts (regenerated from errs.go) contain no decimal digit.",
          "The secret-disclosure clause is tied by the correspondence's scan of real error strings for the secret (text and raw) and every in-window code; it is a test, not a theorem.", "6 C13"),
